@@ -1,11 +1,13 @@
 /-
-C17 - queriers are always closed exactly once; storage-owned data is never modified (partial:
-(a) on the loader model; (b) label edits are functional in the model - aliasing is observed
-by the harness, not modelled).
+C17 - queriers are always closed exactly once; storage-owned data is never modified ((a) on the
+loader model; (b) on a model of Go slices and their backing arrays - `Slices.lean` - for the two
+idioms the engine's label handling relies on: appending through a capacity-capped slice, editing a
+copy; where in the source the other kind of append occurs is a regenerated fact).
 -/
 import PromqlVerif.Loader
 import PromqlVerif.Gen.Facts
 import PromqlVerif.Sem
+import PromqlVerif.Slices
 namespace PromqlVerif.C17
 open PromqlVerif
 
@@ -32,5 +34,69 @@ model label editing is a function; every label set of the storage a query reads 
 theorem dropName_does_not_touch_input (ls : Labels) : ∀ l ∈ ls.dropName, l ∈ ls := by
   intro l hl
   exact (List.mem_filter.mp hl).1
+
+/-! ### writes into memory the engine does not own
+
+A label set handed out by the storage is a slice; the storage may have carved it out of a larger
+array (its spare capacity is then the next series' labels) and may hand the same slice out again.
+In the heap model of `Slices.lean` "the engine never modifies storage-owned data" reads: every
+slice of the heap as it was before the query reads the same afterwards. -/
+
+open Mem in
+/-- **`append(x[:len(x):len(x)], ..)` - the idiom `buildOutputSeries` uses since the repair - cannot
+write into any existing array**, whatever the capacity of `x` was and whatever is appended: every
+slice of the old heap, the storage's label sets among them, reads as before -/
+theorem capped_append_never_writes_storage {α : Type} (h : Heap α) (x : Slice) (hx : x.arr < h.length)
+    (incl : List α) (storage : List Slice) (hst : ∀ t ∈ storage, t.arr < h.length) :
+    ∀ t ∈ storage, t.read (x.capped.append h incl).1 = t.read h :=
+  fun t ht => capped_append_preserves_reads h x hx incl t (hst t ht)
+
+open Mem in
+/-- ... while the result is `x` followed by the appended labels either way - a test that compares
+results cannot tell the capped append from the plain one -/
+theorem append_result_is_the_same {α : Type} (h : Heap α) (x : Slice) (hw : x.wf h) (incl : List α) :
+    (x.append h incl).2.read (x.append h incl).1 = x.read h ++ incl := append_reads h x hw incl
+
+open Mem in
+/-- **the plain append, with spare capacity, writes behind the slice** - into the next series'
+labels if the storage laid them out one after the other (the defect repaired by `2ead23a`) -/
+theorem plain_append_writes_behind_the_slice {α : Type} (h : Heap α) (x : Slice) (hw : x.wf h) (l : α) (rest : List α)
+    (hfit : x.len + (l :: rest).length ≤ x.cap) :
+    ((x.append h (l :: rest)).1.getD x.arr [])[x.off + x.len]? = some l :=
+  append_in_place_writes h x hw l rest hfit
+
+open Mem in
+/-- **editing a copy** (`dropLabel(s.Copy(), ..)`: the deletion shifts the tail of the slice to
+the left in place) **touches the copy's array only** -/
+theorem edit_of_copy_never_writes_storage {α : Type} (h : Heap α) (x : Slice) (edited : List α)
+    (storage : List Slice) (hst : ∀ t ∈ storage, t.arr < h.length) :
+    ∀ t ∈ storage, t.read ((x.copy h).1.set (x.copy h).2.arr edited) = t.read h :=
+  fun t ht => edit_of_copy_preserves_reads h x edited t (hst t ht)
+
+/-- **where the source appends to a slice it did not create** (regenerated from the working tree:
+every `append` whose first argument is neither fresh - `make`, `nil`, a literal, `.Copy()` -, nor
+capacity-capped, nor a buffer reset `b[:0]`, nor a local that only ever held its own appends): four
+functions, none of which is handed a storage-owned slice - `signature` extends the matching labels
+of the plan, `dropLabel` edits its argument in place (see the next theorem for what it is given),
+`selectPoints` fills the operator's own `previousPoints`, `filteredSelector.Matchers` the plan's
+matchers. `buildOutputSeries` is not in the list. -/
+theorem appends_to_foreign_slices_are_the_known_ones :
+    Gen.foreignAppends =
+      ["execution/binary/vector.go:signature:append(grouping, ..)",
+       "execution/function/operator.go:dropLabel:append(l[:i], ..)",
+       "execution/scan/matrix_selector.go:selectPoints:append(out, ..)",
+       "execution/scan/matrix_selector.go:selectPoints:append(out, ..)",
+       "execution/storage/filtered_selector.go:Matchers:append(f.selector.matchers, ..)"] := by decide
+
+/-- **every caller of the in-place `dropLabel` / `DropMetricName` passes a copy** (regenerated): the
+series' labels `.Copy()`, or - in the histogram operator - the result of `dropLabel` on a copy -/
+theorem in_place_label_edits_get_copies :
+    Gen.dropLabelCalls =
+      ["execution/binary/scalar.go:loadSeries:function.DropMetricName(lbls.Copy())",
+       "execution/function/histogram.go:loadSeries:DropMetricName(lbls)",
+       "execution/function/histogram.go:loadSeries:dropLabel(s.Copy())",
+       "execution/function/operator.go:DropMetricName:dropLabel(l)",
+       "execution/function/operator.go:loadSeries:DropMetricName(s.Copy())",
+       "execution/scan/matrix_selector.go:loadSeries:function.DropMetricName(lbls.Copy())"] := by decide
 
 end PromqlVerif.C17
